@@ -19,6 +19,26 @@ CHECKS = {
    "All expression trees of depth ≤ 1 over every operator and 16 operands under 64 variable environments in 4 layouts, plus every depth-1 tree in every depth-1 context (one-hole depth 2; thorough: complete depth 2 for binary/logical roots over 4 operands), are evaluated by the real Eval and compared (value, error/no error, variable store) with a tree-walking int64 evaluator; expressions C leaves undefined are detected and excluded. Complete within those bounds.",
    "Trusts the reference evaluator; which of several errors is reported is not compared; for unsequenced operators any operand evaluation order is accepted; schedule dependence of Eval is C06's subject.",
    "DESIGN.md §6 C11, §4.4"),
+ "C13": ("model_checking",
+   "bounded-exhaustive enumeration of the parameter-expansion product against a table-driven reference model",
+   "The complete product of 10 parameter kinds × every operator form × word/pattern menus × 4 positions × 8 variable states × 6 positional lists × nounset × 4 IFS settings (≈1.6 M cases) is parsed by the real parser, expanded by the real Expand and compared (fields, error type, variable store) with an independent model of the POSIX table, $@/$*, nounset and the C14 splitter.",
+   "Trusts xpmodel.go; constructs POSIX leaves open ($- empty, ${#@}, $@/$* without positionals under non-colon operators, removal on $*, quoted word of := outside quotes) are only required not to panic; values and words outside the menus are not explored.",
+   "DESIGN.md §6 C13, §4.2"),
+ "C15": ("model_checking",
+   "bounded-exhaustive enumeration of strings × quoting styles × modes × environments with an intrinsic oracle",
+   "Every string of up to 4 (quick) / 5 (thorough) characters over the 16 shell-significant characters is written under single, double, backslash and mixed quoting, parsed by the real parser and expanded under all 6 ExpModes in 4 adversarial environments (IFS from the alphabet, HOME, positional parameters, a scratch working directory holding files named like the strings); the result must be exactly one field equal to the string, in Pattern mode a pattern whose elements are all literal.",
+   "Backslash-newline excluded from the backslash style; Pattern mode judged by the pattern model of C12; longer strings / other characters outside the bound.",
+   "DESIGN.md §6 C15"),
+ "C16": ("model_checking",
+   "bounded-exhaustive enumeration of directory trees × patterns against a reference walk",
+   "Every tree of ≤ 2 entries (7 names × 7 kinds incl. dot files, dangling symlinks, symlinked directories, names with pattern characters and multi-byte) and every 3-entry tree over a reduced kind set is built in a scratch directory and globbed with every pattern of ≤ 3 (quick) / 4 (thorough) symbols over {a b * ? [ ] . / \\} plus absolute and multi-level shapes; the result must equal a component-wise walk with the reference matcher: same paths, sorted, no duplicates, all existing.",
+   "File-system primitives (Lstat/Stat/ReadDir) are taken as facts; patterns with an ill-formed component only must not panic; absolute patterns are explored under the scratch root only.",
+   "DESIGN.md §6 C16, §4.3"),
+ "C20": ("model_checking",
+   "explicit-state BFS over operation histories of the real ExecEnv against a map model",
+   "Breadth-first search to depth 4 (quick) / 6 (thorough) from 8 initial environments over an alphabet of ≈200 Set/Unset/Expand/Eval operations on ordinary, special and positional names; every operation is applied in every distinct reachable store state (successor = replay of the shortest history on a fresh instance + 1 operation); after every transition Walk, Get of 17 names, Args, Opts, Aliases and the AST passed in are compared with a plain map model.",
+   "Trusts the map model; canonical state drops Export/ReadOnly (no operation of the alphabet observes them); process environment cleared so NewExecEnv starts from {IFS}.",
+   "DESIGN.md §6 C20, §2 E3"),
 }
 
 def main():
